@@ -28,6 +28,19 @@ Explicit-state search over operation histories of the real ``biogeme.database.Da
   value 0.5); a sweep applies every operand of a menu x every column x every kind of transformation (scale, stored
   product then used as condition, stored difference, product / threshold / equality as condition) after a few earlier
   operations on every root table, and the hand-written chains are repeated on the typed tables.
+* row designations: the two entry points that extract rows (extract_rows -> one Database, mdcev_row_split -> one
+  Database per row, no designation = every row) are called in every state with every position list of length <= 2, the
+  full range and its reverse, and with every container a caller may hold the positions in: list / tuple / range /
+  one-shot iterator / numpy array / list of numpy integers -- and, for mdcev_row_split, the designation of *no* row in
+  each of these forms (nothing must come back; extract_rows refuses an empty table).  The optional arguments whose
+  default is None are also given their falsy value: sample size 0, identical_columns=[].
+* a fourth search varies the *formula object*: the expression handed to add_column / define_variable / remove /
+  values_from_database may have a past -- evaluated on another table, numbered by Expression.prepare or by a model
+  (BIOGEME object, log likelihood or simulated quantity) built on another table whose columns are laid out differently,
+  be a part of such a model, share its Variable objects with one, belong to a model on this very table, or be the object
+  of an earlier operation of the same history.  Kind of past x layout of the other table x formula (one with a
+  parameter, taken at its initial value) x operation, after a few earlier operations, then a second use of the same
+  object after the table has changed.
 
 The reference model never imports biogeme / pandas / numpy.
 """
@@ -75,7 +88,18 @@ RULE = ('one case per executed operation: (root table, history, operation, rando
         'operands (0.5, 0.01, -0.25, 1/3, 0.999, 3 | 1.5, 1e-3, 2.5, 2.0, -1) x columns c, x, id x 6 kinds of transformation '
         '(scale; add col*k then remove on it; define col-k; remove on col*k, on col > k, on col*k == k) x 4 earlier '
         'histories x 6|12 root tables (the three mixed ones and the typed ones), written cells compared with a purely '
-        'relative tolerance; the six chains on the typed tables (2 each | all).  (a|b = quick|thorough)')
+        'relative tolerance; the six chains on the typed tables (2 each | all).  Row designations: mdcev_row_split in every '
+        'expanded state with no argument, every position list of length <= 2, full range, reverse, the empty designation as '
+        'list / tuple / range / iterator / numpy array, numpy arrays [0], [n-1], [n-1, 0], full, tuple / range / iterator / list '
+        'of numpy integers (reduced plan in the wide states); extract_rows additionally with numpy arrays and numpy integers; '
+        'sample size 0 for both sample_* methods; flattening with identical_columns=[] (method, function, all 3^5 raw frames).  '
+        'Formula objects (fourth part): 8 kinds of past (fresh; evaluated / prepared / model / simulation / part of a model / '
+        'variables shared with a model on another table; model on this table) x 3|26 layouts of the other table (same order, '
+        'reverse, further column in front | every order of the 4 columns after 2 of the 4 earlier histories, 4 after the others) '
+        'x formulas lin, mix, b*x+c | also obs, frac, fixed parameter x {add_column, define_variable, values_from_database} and x '
+        'conditions c==1, x>k | also or, c-1 for remove, x 4 earlier histories x 3|6 root tables; each followed by a second use '
+        'of the same object (define_variable / values_from_database after add_column + scale_column; remove after remove + '
+        'scale_column).  (a|b = quick|thorough)')
 ASSUMPTIONS = [
     'tables have 5 rows (ids grouped 2-1-2) and 4 numeric columns with dyadic values so that the reference arithmetic is '
     'exact; three root tables: RangeIndex / permuted integer labels with unsorted individual ids / duplicate labels '
@@ -101,6 +125,15 @@ ASSUMPTIONS = [
     'the panel sort must order the rows by individual id; the order of the rows inside one individual is not fixed by '
     'the statement (pandas sorts unstably): the reference adopts the observed order and counts the event',
     'fold sizes and the distribution of the samples are not part of the statement and are not checked',
+    'mdcev_row_split is taken as an entry point of "extracting rows" (it returns the designated rows of the current table, one '
+    'Database each); a designation is any iterable of in-range positions, including an empty one and numpy containers '
+    '(the argument is declared Iterable[int]); a sample of size 0 and identical_columns=[] are legal values of optional '
+    'arguments whose default None means something else',
+    'the value of a formula on a row does not depend on the past of the Python object that represents it; a formula with a '
+    'parameter (Beta) has the value obtained with the initial value of the parameter (what values_from_database documents); '
+    'on panel data a model on this table holds the formula as a simulated quantity (as log likelihood it is refused); the '
+    'state of the other table / model after the operation belongs to other properties and is not examined here; a worker '
+    'process that dies during the formula-object sweep is reported as a violation (nothing there is expected to be refused)',
 ]
 ANCHOR_FILES = ['src/biogeme/database.py', 'src/biogeme/tools/database.py']
 DETERMINISM_SLICE = 3
@@ -231,10 +264,15 @@ LAYOUTS = [list(p) for p in itertools.permutations(COLS)] + [['e1'] + COLS, ['x'
 assert LAYOUTS[0] == COLS
 
 
-def prov_layouts(tier):
-    if tier == 'thorough':
+def prov_layouts(tier, pre=0):
+    """quick: the same order, the reverse order, a further column in front; thorough: also a rotation, and every layout
+    after the first and the last of the earlier histories."""
+    few = [0, LAYOUTS.index(COLS[::-1]), LAYOUTS.index(['e1'] + COLS)]
+    if tier != 'thorough':
+        return few
+    if pre in (0, len(PRE) - 1):
         return list(range(len(LAYOUTS)))
-    return [0, LAYOUTS.index(COLS[::-1]), LAYOUTS.index(COLS[1:] + COLS[:1]), LAYOUTS.index(['e1'] + COLS)]
+    return few + [LAYOUTS.index(COLS[1:] + COLS[:1])]
 
 
 def parse_prov(p):
@@ -1674,6 +1712,16 @@ def tasks(tier, seed):
         for ci in range(len(CHAINS)):
             if tier == 'thorough' or ci % 3 == ti % 3:
                 t.append(dict(part='chain', root=dict(table=table, tier=tier), chain=ci))
+    for table in ['A', 'B', 'C'] + (dt_tables('quick') if tier == 'thorough' else []):
+        for pi in range(len(PRE)):
+            for kinds in ([[k] for k in PROV_KINDS] if tier == 'thorough' else [PROV_KINDS[:4], PROV_KINDS[4:]]):
+                # the layouts with a further column (positions beyond the columns of this table) are tasks of their own
+                lay = prov_layouts(tier, pi)
+                for part in ([i for i in lay if len(LAYOUTS[i]) == len(COLS)], [i for i in lay if len(LAYOUTS[i]) != len(COLS)]):
+                    kk = kinds if part[0] == 0 else [k for k in kinds if k not in PROV_LOCAL]
+                    if kk:
+                        t.append(dict(part='prov', root=dict(table=table, tier=tier, prov=True, relative=True), pre=pi,
+                                      kinds=kk, layouts=part))
     for table in ['A', 'B', 'C'] + dt_tables(tier):
         for pi in range(len(PRE)):
             t.append(dict(part='dtsweep', root=dict(table=table, tier=tier, dt=True, relative=True), pre=pi))
@@ -1687,10 +1735,6 @@ def tasks(tier, seed):
     for li in range(2 if tier == 'quick' else len(tool_layouts())):
         for lead in range(3):
             t.append(dict(part='tool', layout=li, lead=lead, tier=tier))
-    for table in ['A', 'B', 'C'] + (dt_tables('quick') if tier == 'thorough' else []):
-        for pi in range(len(PRE)):
-            for kinds in (PROV_KINDS[:4], PROV_KINDS[4:]):
-                t.append(dict(part='prov', root=dict(table=table, tier=tier, prov=True, relative=True), pre=pi, kinds=kinds))
     return t
 
 
@@ -1703,6 +1747,23 @@ def run_task(task):
     finally:
         remove_seams()
     return rec.result()
+
+
+def on_abort(task, info):
+    """A worker died while running the task.  The operations of the formula-object sweep are all in the alphabet (nothing
+    is expected to be refused, let alone to take the process down): the operation that was running did not store / return
+    the values of its formula.  Anywhere else a dying worker is a harness error."""
+    if task.get('part') == 'prov':
+        return dict(key='C13|process-died|op=add/define/remove/values;formula=object-with-a-past',
+                    what=f'the process died (exit {info.get("exitcode")}) during the operations add_column / define_variable / remove / '
+                         f'values_from_database with formula objects of the kinds {task.get("kinds")} after history '
+                         f'{PRE[task["pre"]]} on table {task["root"]["table"]}: {str(info.get("log_tail", ""))[-200:]}',
+                    case={k: v for k, v in task.items() if k != 'fresh'})
+    return None
+
+
+def _prov_child(task, q):
+    q.put(run_task(task)['violations'])
 
 
 def _run_steps(root, history, rec, tag, observe_last=True, start=0):
@@ -1808,9 +1869,10 @@ def _run_prov(task, rec):
     then a second use of the same object after the table has changed."""
     root, pre = task['root'], PRE[task['pre']]
     thorough = root['tier'] == 'thorough'
-    rec.sample(dict(part='prov', root=root, pre=pre, kinds=task['kinds'], layouts=[LAYOUTS[i] for i in prov_layouts(root['tier'])]))
+    layouts = task['layouts']
+    rec.sample(dict(part='prov', root=root, pre=pre, kinds=task['kinds'], layouts=[LAYOUTS[i] for i in layouts[:4]]))
     for kind in task['kinds']:
-        for layout in ([0] if kind in PROV_LOCAL else prov_layouts(root['tier'])):
+        for layout in ([0] if kind in PROV_LOCAL else layouts):
             p = f'{kind}@{layout}#g'
             again = 'reused@0#g'
             for f in (PROV_FORMULAS_T if thorough else PROV_FORMULAS_Q):
@@ -1826,7 +1888,7 @@ def _run_prov(task, rec):
                 ok = _run_steps(root, pre + [['remove', c, p]], rec, 'prov', observe_last=False, start=len(pre))
                 if ok and (thorough or c == 'x_gt'):
                     h = pre + [['remove', c, p], ['scale', 'x', -4.0]]
-                    _run_steps(root, h + [['remove', c, again]], rec, 'prov', observe_last=thorough, start=len(h))
+                    _run_steps(root, h + [['remove', c, again]], rec, 'prov', observe_last=False, start=len(h))
 
 
 def _run_nanpat(task, rec):
@@ -1925,6 +1987,22 @@ def replay(case):
     if case.get('part') == 'tool':
         _tool_one(case['layout'], list(case['pattern']), case['variant'], rec)
         return rec.violations
+    if case.get('part') == 'prov':
+        # a whole task of the formula-object sweep during which the process died: re-run in a child process
+        import multiprocessing as mp
+
+        ctx = mp.get_context('spawn')
+        q = ctx.Queue()
+        p = ctx.Process(target=_prov_child, args=(dict(case), q))
+        p.start()
+        try:
+            found = q.get(timeout=TASK_TIMEOUT)
+        except Exception:  # noqa: BLE001  (nothing arrived: the child died)
+            found = None
+        p.join(30)
+        if found is None or p.exitcode not in (0, None):
+            return [on_abort(dict(case), dict(exitcode=p.exitcode, log_tail=''))]
+        return found
     install_seams()
     try:
         root, history, op = case['root'], [list(e) for e in case['history']], list(case['op'])
